@@ -210,6 +210,9 @@ Fixpoint cty (G : tenv) (e : cexpr) : option sty :=
           end
       | FMatches => match cty G a, b with
                     | Some ta, EConst (KString _) => if is_strlike ta then Some SBool else None     (* a constant pattern: checked at generation time *)
+                    | Some ta, EConst _ => None
+                    | Some ta, _ =>                                                                 (* any other pattern: compiled at run time, guarded *)
+                        match cty G b with Some tb => if is_strlike ta && is_strlike tb then Some SBool else None | None => None end
                     | _, _ => None
                     end
       | _ =>
@@ -230,6 +233,8 @@ Fixpoint cty (G : tenv) (e : cexpr) : option sty :=
       | FMatches =>
           match cty G t, a with
           | Some tg, EConst (KString _) => if is_strlike tg then Some SBool else None
+          | Some tg, EConst _ => None
+          | Some tg, _ => match cty G a with Some ta => if is_strlike tg && is_strlike ta then Some SBool else None | None => None end
           | _, _ => None
           end
       | _ => None
